@@ -78,7 +78,8 @@ def gen(rng, tier):
                 uf = []
                 for e in rng.sample(same, min(len(same), rng.choice([1, 2]))):
                     uf.append(G.mf(list(e["cols"]), [["gene_id", [g]], ["transcript_id", ["UT%d" % ui]]]))
-            upd = {"feats": uf, "form": rng.choice(["list", "gen", "path", "string"]), "kind": kind}
+            upd = {"feats": uf, "form": rng.choice(["list", "gen", "path", "string"]), "kind": kind,
+                   "other_punctuation": rng.random() < 0.4}
             if rng.random() < 0.4:
                 # the first attempt's source fails after the dialect peek; the call is then retried on the same handle
                 upd["fail_first_at"] = rng.randint(min(2, len(uf)), len(uf))
@@ -90,7 +91,36 @@ def gen(rng, tier):
         while not f2:
             f2 = G.gtf_annotation(rng, {"max_genes": 3, "max_tx": 2})
         pair = {"feats": f2, "sched_seed": rng.getrandbits(32), "policy": rng.choice(["uniform", "bursty", "rr", "pileup"])}
-    return {"feats": feats, "custom": custom, "kw": kw, "form": rng.choice(["path", "string", "list", "gen"]),
+    shared = None
+    if not custom and not fault and not long_run and not updates and pair is None and rng.random() < 0.2:
+        # Ensembl style: exons carry an exon_id that is their key, and an exon shared by several transcripts of a gene is
+        # listed once per transcript; with merge_strategy='merge' it is stored once and belongs to each of them
+        shared = True
+        out_ = []
+        n_e = 0
+        for f in feats:
+            if f["cols"][2] in ("gene", "transcript"):
+                continue
+            if f["cols"][2] == "exon":
+                n_e += 1
+                f["attrs"] = [a for a in f["attrs"] if a[0] != "exon_number"] + [["exon_id", ["E%d" % n_e]]]
+                out_.append(f)
+                g_ = [v for k_, v in f["attrs"] if k_ == "gene_id"][0][0]
+                t_ = [v for k_, v in f["attrs"] if k_ == "transcript_id"][0][0]
+                if rng.random() < 0.5:
+                    import copy as _c
+                    f2 = _c.deepcopy(f)
+                    for a in f2["attrs"]:
+                        if a[0] == "transcript_id":
+                            a[1] = [t_ + "b"]
+                    out_.append(f2)
+            else:
+                out_.append(f)
+        if out_:
+            feats = out_
+        else:
+            shared = None
+    return {"feats": feats, "custom": custom, "kw": kw, "form": rng.choice(["path", "string", "list", "gen"]), "shared": shared,
             "after": rng.choice(["none", "reopen", "restart", "restart"]), "fault": fault, "updates": updates, "pair": pair,
             # no two lines of these inputs share a key, so every strategy must give the same database
             "strategy": rng.choice(["error", "error", "create_unique", "replace", "warning", "merge"])}
@@ -204,7 +234,12 @@ def run(case):
     model.gtf["dig"] = bool(kw.get("disable_infer_genes"))
     model.gtf["dit"] = bool(kw.get("disable_infer_transcripts"))
     id_spec = {"gene": model.gtf["gene_key"], "transcript": model.gtf["transcript_key"]}
-    model.import_gtf(case["feats"], strategy="error", id_spec=id_spec)
+    strategy0 = case.get("strategy", "error")
+    if case.get("shared"):
+        id_spec = dict(id_spec, exon="exon_id")
+        strategy0 = "merge"
+        probes["exons_shared_between_transcripts"] = 1
+    model.import_gtf(case["feats"], strategy="merge" if case.get("shared") else "error", id_spec=id_spec)
     fault = case.get("fault")
     with World("c03_") as w:
         def call(n, op):
@@ -214,8 +249,8 @@ def run(case):
 
         node = w.node()
         spec = G.source_spec(None, case["feats"], form=case["form"], d=G.DEFAULT_GTF)
-        req = {"op": "create", "h": "h", "db": "a.db", "data": spec, "kw": dict(kw, merge_strategy=case.get("strategy", "error"))}
-        if case["custom"]:
+        req = {"op": "create", "h": "h", "db": "a.db", "data": spec, "kw": dict(kw, merge_strategy=strategy0)}
+        if case["custom"] or case.get("shared"):
             req["id_spec"] = id_spec
         if fault:
             req["faults"] = [{"kind": fault["kind"], "nth": fault["nth"], "mode": fault["mode"]}]
@@ -260,7 +295,12 @@ def run(case):
                             break
                         call(node, {"op": "gc"})
                         probes["update_failed_then_retried_on_same_handle"] = 1
-                    ur = call(node, {"op": "update", "h": "h", "data": G.source_spec(None, upd["feats"], form=upd["form"], d=G.DEFAULT_GTF), "kw": ukw})
+                    ud = G.DEFAULT_GTF
+                    if upd.get("other_punctuation"):
+                        # the update file is written with other punctuation than the imported one (no trailing semicolon)
+                        ud = dict(G.DEFAULT_GTF, trail=False)
+                        probes["update_in_other_gtf_punctuation"] = 1
+                    ur = call(node, {"op": "update", "h": "h", "data": G.source_spec(None, upd["feats"], form=upd["form"], d=ud), "kw": ukw})
                     if not ur["ok"]:
                         V.append(viol("C03.update", "update (%s) raised %s: %s" % (upd["kind"], ur["exc"], ur["msg"]), kind="update_failed",
                                       exc=ur["exc"], retried=upd.get("fail_first_at") is not None))
